@@ -18,8 +18,16 @@ MISSED_FIRST = {"C02-1": "dict keys were always generated in mesh order", "C02-2
                 "C14-5": "no integer-typed corners with half-integer cells in the subregion profile", "C15-6": "no assignment of another field's array object through the array setter",
                 "C16-5": "no labels ending in -component", "C16-6": "representation aliases bin8/default never used; process-global writer state (see C09-5)",
                 "C18-4": "the result field of an earlier rotation was never kept and compared later; no successive rotations onto the same mesh",
-                "C18-6": "align_vector always with unit-length, non-(anti)parallel vectors"}
-NOT_APPLICABLE = {"C15-5": "the change affects a norm given as a scalar Field on another mesh; C15 enumerates constant, per-cell array and function of position as norm specifications, so no clause of C15 is broken and the check (rightly) stays quiet"}
+                "C18-6": "align_vector always with unit-length, non-(anti)parallel vectors",
+                "C15-5": "a norm given as a scalar Field on another mesh was first read as outside C15's list (constant, per-cell array, function of position); a Field IS a function of position, so the norm profile now uses scalar fields on covering meshes (same cells, or coarser with the same cell counts) as norm",
+                "C03-7": "no labelled one-component fields in the algebra profile",
+                "C03-9": "no two fields whose meshes share one Region object and differ only in broadcastable cell counts (what Field.resample produces) among the refused operand pairs",
+                "C08-8": "resampling only to multiples/odd divisors: no new centre ever sat on an old face, where the data decides which neighbour is taken",
+                "C10-7": "files were only ever replaced through to_file; now another program copies a file over an existing path between two reads",
+                "C10-9": "the legacy-HDF5 peer always wrote sorted corners",
+                "C12-8": "the reference point was never one of the object's own corner arrays",
+                "C16-9": "upper corners were always computed as pmin + k*cell, never the float nearest to the decimal value a user types; corners of binary/XML files compared with a tolerance instead of exactly"}
+NOT_APPLICABLE = {}
 verify = {}
 for f in sys.argv[1:]:
     for line in open(f):
